@@ -7,7 +7,7 @@ from c06 import r2 as only_successful_reloads_write
 from c09 import r3 as failed_reload_untouched
 from c14 import r4 as record_before_nested_load
 from common import eq_structure, hash_sequence, make_pt, pt_deref
-from mir import agg_stmts
+from mir import agg_direct, agg_stmts
 
 LEVEL = 'other'
 EXPLANATION = (
@@ -35,6 +35,7 @@ def run(ctx):
     R4 = rep.rule('C05.R4', 'reload re-learns dependencies: forward and reverse edges are both updated', floor=4)
     R5 = rep.rule('C05.R5', 'cache messages are drained before events', floor=1)
     R6 = rep.rule('C05.R6', 'Dependency / BorrowedDependency / dyn Key agree in Hash and Eq', floor=6)
+    R7 = rep.rule('C05.R7', 'every notified entry that the graph knows reaches the change set, then the update runs', floor=3)
     S1 = rep.rule('C14.R4', 'asset dependencies recorded before the nested load (shared with C14)', floor=4)
     S2 = rep.rule('C06.R2', 'only successful reloads write (shared with C06)', floor=6)
     S3 = rep.rule('C09.R3', 'failed reload leaves the graph untouched (shared with C09)', floor=2)
@@ -45,6 +46,8 @@ def run(ctx):
         r4(R4, cfg, F)
         r5(R5, cfg, F)
         r6(R6, cfg, F)
+        r7(R7, cfg, F)
+        R7.finish_cfg(cfg)
         record_before_nested_load(S1, cfg, F)
         only_successful_reloads_write(S2, cfg, F)
         failed_reload_untouched(S3, cfg, F)
@@ -343,3 +346,68 @@ def r6(R6, cfg, F):
         R6.check(not bb_.calls() and bb_.origins(0) == {('arg', 1)}, cfg, bb_.path, 'borrow-returns-self', 'Borrow<dyn Key> for Dependency must return self', bb_.loc())
     else:
         R6.missing(cfg, 'Borrow<dyn Key> for Dependency')
+
+
+def r7(R7, cfg, F):
+    P = 'hot_reloading::paths::'
+    he = F.body(P + 'HotReloadingData::handle_events')
+    cl = F.body(P + 'HotReloadingData::handle_events::{closure#0}')
+    fe = F.body('hot_reloading::Events::for_each')
+    th = F.body('hot_reloading::hot_reloading_thread')
+    if not he or not cl or not fe or not th:
+        R7.missing(cfg, 'handle_events / its closure / Events::for_each / hot_reloading_thread')
+        return
+    # the thread hands every received Events value to handle_events
+    rc = [c for c in th.calls() if c.callee and re.search(r'Receiver::<T>::try_recv$', c.callee.best) and 'Events' in c.dest['ty']]
+    hc = [c for c in th.calls() if c.callee and c.callee.best == he.path]
+    ok = len(rc) == 1 and len(hc) == 1
+    if ok:
+        src = th.downcast_source(hc[0].args[1])
+        sw = th.primary_switch(rc[0].dest['l'])
+        okt = th.variant_edge(sw, 0) if sw is not None else None
+        ok = bool(src) and src[0] == rc[0].dest['l'] and src[1] == 'Ok' and okt is not None \
+            and not (th.reachable([okt], removed_blocks=[hc[0].bb]) & (set(th.return_blocks()) | {rc[0].bb}))
+    R7.check(ok, cfg, th.path, 'received-events-are-handled', 'every Events value received by the reloader must be passed to handle_events', hc[0].loc() if hc else th.loc())
+    # for_each applies f to the single event / to every event of the batch
+    psw = fe.primary_switch(1)
+    adt = F.adt('hot_reloading::Events')
+    ok = psw is not None and adt is not None
+    if ok:
+        for v in adt['variants']:
+            t_ = fe.variant_edge(psw, v['idx'])
+            reach = fe.reachable([t_])
+            if v['name'] == 'Single':
+                fs = [c for c in fe.calls() if c.bb in reach and common.user_call_kind(c) == 'indirect' and fe.origins(c.args[0]) == {('arg', 2)}]
+                okv = len(fs) == 1
+                if okv:
+                    tup = agg_direct(fe, fs[0].args[1])
+                    s_ = fe.downcast_source(tup['rv']['ops'][0]) if tup is not None else None
+                    okv = bool(s_) and s_[0] == 1 and s_[1] == 'Single'
+            else:
+                ii = [c for c in fe.calls() if c.bb in reach and c.callee and c.callee.name == 'into_iter']
+                fo = [c for c in fe.calls() if c.bb in reach and c.callee and c.callee.defp == 'std::iter::Iterator::for_each']
+                adaptors = [c.callee.name for c in fe.calls() if c.bb in reach and c.callee and c.callee.trait == 'std::iter::Iterator' and c.callee.name != 'for_each']
+                okv = len(ii) == 1 and len(fo) == 1 and not adaptors and fe.access_path(fo[0].args[0]) == ['call@bb%d' % ii[0].bb] and fe.origins(fo[0].args[1]) == {('arg', 2)}
+                if okv:
+                    s_ = fe.downcast_source(ii[0].args[0])
+                    okv = bool(s_) and s_[0] == 1 and s_[1] == 'Multiple'
+            ok = ok and okv
+    R7.check(ok, cfg, fe.path, 'for_each-visits-every-event', 'Events::for_each must apply the callback to the single event and to every event of a batch (no adaptor, no early exit)', fe.loc())
+    # the closure: contains(entry) -> to_reload.insert(entry) on every path; then update_if_static
+    ct = [c for c in cl.calls() if c.callee and c.callee.best == 'hot_reloading::dependencies::DepsGraph::contains']
+    ins = [c for c in cl.calls() if c.callee and c.callee.name == 'insert' and 'HashSet' in c.callee.best]
+    ok = len(ct) == 1 and len(ins) == 1 and cl.origins(ct[0].args[1]) == {('arg', 2)} and cl.origins(ins[0].args[1]) == {('arg', 2)} \
+        and cl.origins(ct[0].args[0]) == {('upvar', 1)} and cl.origins(ins[0].args[0], passthrough=pt_deref) == {('upvar', 0)}
+    if ok:
+        sw = [bb for bb, t_ in cl.terms() if t_['k'] == 'switch' and cl.access_path(t_['discr']) == ['call@bb%d' % ct[0].bb]]
+        true_t = [d for d, lab in cl.edges(sw[0]) if lab != 'sw:0'] if len(sw) == 1 else []
+        ok = len(true_t) == 1 and not (cl.reachable(true_t, removed_blocks=[ins[0].bb]) & set(cl.return_blocks()))
+    R7.check(ok, cfg, cl.path, 'known-entry-always-queued', 'an event about an entry the graph knows must be inserted into the change set on every path', cl.loc())
+    fc = [c for c in he.calls() if c.callee and c.callee.best == fe.path]
+    us = [c for c in he.calls() if c.callee and c.callee.name == 'update_if_static']
+    ok = len(fc) == 1 and len(us) == 1 and he.dominates(fc[0].bb, us[0].bb) and he.origins(fc[0].args[0]) == {('arg', 2)}
+    if ok:
+        lit = agg_direct(he, fc[0].args[1])
+        ok = lit is not None and lit['rv'].get('closure') == cl.path and ['to_reload' in (he.access_path(o) or []) for o in lit['rv']['ops']][:1] == [True] \
+            and 'deps' in (he.access_path(lit['rv']['ops'][1]) or [])
+    R7.check(ok, cfg, he.path, 'queue-all-then-update', 'handle_events must queue every event of the batch into self.to_reload (testing self.deps), then run update_if_static', he.loc())
